@@ -180,7 +180,7 @@ var dirs = []string{"", "a", "a/b", "c", "c/d", "ab", "c/b"}
 var bases = []string{"root", "alpha", "beta", "gamma", "delta", "shared"}
 
 // goBases are file names that collide with packages the generated code imports.
-var goBases = []string{"root", "fmt", "errors", "strings", "wire", "stream", "zapcore", "multierr", "bytes", "thriftreflect", "ptr", "math", "strconv", "base64", "json"}
+var goBases = []string{"root", "fmt", "fmt2", "errors", "errors2", "strings", "strings2", "wire", "stream", "zapcore", "multierr", "bytes", "bytes2", "thriftreflect", "ptr", "math", "strconv", "base64", "json"}
 
 // Gen draws a program.
 func Gen(o Options) *Program {
